@@ -226,11 +226,17 @@ public:
         int nthreads = tier == "quick" ? wr.range(2, 6) : wr.range(2, 12);
         Json sc = Json::obj(); sc.set("seed", (long long)(sr.next() >> 1)); sc.set("policy", (int)sr.below(3)); sc.set("pct_depth", 1 + (int)sr.below(5)); sc.set("burst_keep", 800 + (int)sr.below(199)); sc.set("alloc_points", (int)(sr.chance(1, 4) ? 0 : 5 + sr.below(200))); plan.set("sched", sc);
         bool pool = wr.chance(3, 5); plan.set("shared_pool", pool); plan.set("warm", wr.chance(1, 5));
+        // An eighth of the runs: nothing but private RegularExpression objects over the XML shorthand escapes (\w \i \c \d \s and their complements). Their shared
+        // range tokens get their bitmaps when the range factory is initialised, so - unlike \p{..} tokens (known finding rangetoken-lazy-map) - no race is expected here;
+        // reports of these runs carry a marker that the known finding does not match.
+        bool xmlOnly = wr.chance(1, 8); if (xmlOnly) { plan.set("xml_ranges_only", true); plan.set("shared_pool", false); plan.set("warm", false); pool = false; }
         Json threads = Json::arr(); int uniq = 0;
         for (int t = 0; t < nthreads; t++) {
             Json ops = Json::arr(); int n = wr.range(1, 5);
             for (int i = 0; i < n; i++) {
                 Json op = Json::obj(); unsigned k = (unsigned)wr.below(100); uniq++;
+                if (xmlOnly) { static const char* xp[] = { "\\w+", "\\W+", "\\i\\c*", "\\d+\\s\\w*", "\\S+\\s\\D", "\\I\\C+", "\\w\\W\\w" }; static const char* xi[] = { "word", "--", "a.b", "12 x", "ab c", "1-", "a b" };
+                    op.set("op", "regex"); op.set("pattern", xp[wr.below(7)]); op.set("input", xi[wr.below(7)]); ops.push(op); continue; }
                 if (k < 20) {       // private parser over a generated world (DTD etc.)
                     GenOpts go; go.maxDepth = 3; go.maxChildren = 3; go.idAttrs = true; Rng dr = wr.sub(("d" + std::to_string(uniq)).c_str()); World w = makeWorld(dr, go);
                     ParseCfg c = ParseCfg::random(wr); c.lowWaterMark = -1; c.positions = false; c.secMgr = false; if (c.scanner == 3) c.schema = true;
@@ -309,7 +315,7 @@ public:
             const RawReport& r = baton::report(i); std::string c0, c1; std::string a = siteOf(r.pcs[0], &c0), b = r.nmop > 1 ? siteOf(r.pcs[1], &c1) : std::string("?");
             if (b < a) { std::swap(a, b); std::swap(c0, c1); }
             std::string cls = std::string(strcmp(r.desc, "data-race") == 0 ? "race:" : (std::string(r.desc) + ":").c_str()) + a + "|" + b;
-            std::string detail = std::string(r.desc) + " between [" + c0 + "] and [" + c1 + "]";
+            std::string detail = std::string(plan.getb("xml_ranges_only") ? "[workload=xml-ranges-only] " : "") + r.desc + " between [" + c0 + "] and [" + c1 + "]";
             if (getenv("VERIF_LIST_CLASSES")) fprintf(stderr, "CLASS %s || %s\n", cls.c_str(), detail.c_str());
             if (knownFindingMatches(cls, detail)) { if (firstKnownCls.empty()) { firstKnownCls = cls; firstKnownDetail = detail; } continue; }
             o.violated = true; o.cls = cls; o.detail = detail + " (" + std::to_string(g_nReports) + " reports in this run)"; return o;
